@@ -412,7 +412,7 @@ func (w *world) run(isDisp bool, data []byte, underlay netip.Addr, tag string) {
 		if !bytes.Equal(out, data) {
 			e.Violate("C44/forward-modified", "forwarded packet differs from the received one", rep)
 		}
-		if !unmapEq(target.Addr(), underlay) {
+		if !unmapEq(target.Addr(), ul) {
 			e.Violate("C44/reflected-to-other-host",
 				"forwarded to an IP address that is not the outer IP destination of the datagram", rep)
 		}
